@@ -743,6 +743,13 @@ func (x *gen) cliOp() {
 							words = append(words, w)
 						}
 					}
+					// words a shell user might well have in a file: format verbs, escapes, quotes
+					if x.g.chance(35) {
+						hostile := []string{"50%off", "x%%y", "%s", "%d%d", "100%", "a\\nb", "$HOME", "`id`", "--size", "-h", "%v%!"}
+						for i, k := 0, 1+x.g.intn(3); i < k; i++ {
+							words = append(words, hostile[x.g.intn(len(hostile))])
+						}
+					}
 				}
 				extra = fmt.Sprintf(" words=%s titles=%s", encList(words), encList(wordTitles(words)))
 				if len(words) == 0 {
